@@ -88,9 +88,13 @@ impl Hs {
 /// observation must not change what is finally emitted.
 fn probe(e: &Value, o: &dyn acpi_tables::Aml) {
     if e.get("probe").map(bool_of).unwrap_or(false) {
-        let mut v = Vec::new();
-        o.to_aml_bytes(&mut v);
-        let _ = acpi_tables::u8sum(o);
+        // a partially built entry need not be serialisable yet (a fixed-memory window before its last target): a
+        // refusal here is not the operation's
+        let _ = guarded(|| {
+            let mut v = Vec::new();
+            o.to_aml_bytes(&mut v);
+            acpi_tables::u8sum(o)
+        });
     }
 }
 fn calls(e: &Value) -> &[Value] {
@@ -787,7 +791,7 @@ pub fn mk_qos(e: &Value) -> rqsc::QoSController {
     for c in calls(e) {
         probe(e, &q);
         if e.get("probe").map(bool_of).unwrap_or(false) {
-            let _ = q.len();
+            let _ = guarded(|| q.len());
         }
         match cname(c) {
             "add_resource" => q.add_resource(mk_resource(carg(c, "v"))),
